@@ -50,3 +50,47 @@ def check_case_folding_callers(R, F):
                     bad.append('%s (%s)' % (gp, fn.where(b)))
     R.require(not bad and n >= 3, 'case-folding', 'name|octet-case-folding-only-in-labels', '', 'the %d octet-level case-folding calls are all in Label / the label scan / LowercaseName' % n,
               'octets are compared or folded case-insensitively outside the name-label code: %s -- data that is not a domain name (RDATA integers, lengths) would be treated as equal up to ASCII case' % bad)
+
+
+def check_longest_match(R, F, rule='longest-match'):
+    """HashMapTreeCatalog's walk returns the deepest entry on the path and falls back to shallower ones.
+    Recursive form: `deeper.or(node.data)` with the recursive result as receiver, descending one label per call.
+    Iterative form: the entry of the node at hand is examined *before* every descent (so the starting node's entry --
+    the class root -- is a candidate too), and the walk advances by one child lookup per round."""
+    from qv.flow import slice_of
+    from qv.rulelib import calls_in
+    CAT = 'db::hash_map_tree::catalog::'
+    lic = F.fn(CAT + 'lookup_in_class')
+    rec = calls_in(lic, CAT + 'lookup_in_class')
+    if rec:
+        ors = calls_in(lic, 'Option::<T>::or')
+        ok = len(ors) == 1
+        if ok:
+            b, t = ors[0]
+            recv = slice_of(lic, t['args'][0])
+            alt = slice_of(lic, t['args'][1])
+            ok = any(n2 == CAT + 'lookup_in_class' for n2 in recv.call_names()) and not any(n2 == CAT + 'lookup_in_class' for n2 in alt.call_names()) \
+                and any(fp and fp[-1] == 'data' for fp in alt.field_paths())
+        R.require(ok, rule, lic.gpath + '|deeper-first', lic.where(ors[0][0]) if ors else lic.where(), 'deeper match preferred, node entry as fallback', 'lookup_in_class no longer prefers the deeper match over the node\'s own entry')
+        ok = len(rec) == 1 and paths.show_operand(lic, rec[0][1]['args'][2]) == 'Sub(arg3,1_usize)' and 'children' in paths.show_operand(lic, rec[0][1]['args'][0])
+        R.require(ok, rule, lic.gpath + '|descends-one-label', lic.where(), 'recurses into children[name[level-1]] with level-1', 'recursion of lookup_in_class does not descend exactly one label')
+        return
+    gets = [b for b, t in lic.calls() if re.search(r'HashMap::<[^>]*>::get$', callee_name(t)) and 'children' in paths.show_operand(lic, t['args'][0])]
+    def reads_data(st):
+        if st['k'] != 'assign':
+            return False
+        rv = st['rv']
+        pls = []
+        if rv['k'] in ('ref', 'discr'):
+            pls.append(rv['pl'])
+        elif rv['k'] == 'use' and rv['op']['k'] in ('copy', 'move'):
+            pls.append(rv['op']['pl'])
+        return any(isinstance(q, dict) and q.get('n') == 'data' for pl in pls for q in pl['p'])
+    datas = [b for b, blk in enumerate(lic.blocks) if not blk['cleanup'] and any(reads_data(st) for st in blk['stmts'])]
+    if not gets or not datas:
+        R.bad(rule, lic.gpath + '|deeper-first', lic.where(), 'cannot find the recursive call or an iterative walk (children.get / .data reads) in lookup_in_class')
+        return
+    late = [g for g in gets if not any(lic.dominates(d, g) for d in datas)]
+    R.require(not late, rule, lic.gpath + '|deeper-first', lic.where(gets[0]), 'iterative walk: the entry of the node at hand is examined before every descent',
+              'the walk descends into a child (%s) before the entry of the node at hand was examined: the entry of the starting node (the class root) is never a candidate' % [lic.where(g) for g in late])
+    R.require(len(gets) == 1 and gets[0] in lic.reachable(lic.succs()[gets[0]]), rule, lic.gpath + '|descends-one-label', lic.where(gets[0]), 'one child lookup per round of the walk', 'the iterative walk does not advance by exactly one child lookup per round')
